@@ -96,7 +96,7 @@ func (t *Table) ToMarkdown() string {
 	// Header row
 	for j, cell := range t.Rows[0] {
 		sb.WriteString("| ")
-		sb.WriteString(strings.ReplaceAll(cell.Text, "\n", " "))
+		sb.WriteString(escapeMarkdownCell(cell.Text))
 		sb.WriteString(" ")
 		if j == len(t.Rows[0])-1 {
 			sb.WriteString("|")
@@ -117,7 +117,7 @@ func (t *Table) ToMarkdown() string {
 	for i := 1; i < len(t.Rows); i++ {
 		for j, cell := range t.Rows[i] {
 			sb.WriteString("| ")
-			sb.WriteString(strings.ReplaceAll(cell.Text, "\n", " "))
+			sb.WriteString(escapeMarkdownCell(cell.Text))
 			sb.WriteString(" ")
 			if j == len(t.Rows[i])-1 {
 				sb.WriteString("|")
@@ -127,6 +127,13 @@ func (t *Table) ToMarkdown() string {
 	}
 
 	return sb.String()
+}
+
+// escapeMarkdownCell keeps a cell's text inside its pipe-table cell: line breaks become
+// spaces and a literal '|' is escaped so that it does not start a new column.
+func escapeMarkdownCell(text string) string {
+	text = strings.ReplaceAll(text, "\n", " ")
+	return strings.ReplaceAll(text, "|", "\\|")
 }
 
 // ToCSV converts the table to CSV format
